@@ -1112,6 +1112,11 @@ class Exec:
             return R(UNIT)
         if re.search(r'size_of::<T>', c):
             return R(s.S)
+        if re.search(r'size_of_val::<\[', c):
+            a = args[0]
+            if isinstance(a, ArrRef):
+                a = Slice(a.arr, bv(0), a.arr.len)
+            return R((a.end - a.start) * s.S)      # bytes = elements * size_of::<T>()
         ms = re.search(r'size_of::<(A|B)>$', c)
         if ms:
             if 'size_of_' + ms.group(1) not in s.consts:
@@ -1324,6 +1329,16 @@ class Exec:
             return R(Enum('Continue' if v.variant == 'Ok' else 'Break', dict(v.fields)))
         if re.search(r' as FromResidual<.*>>::from_residual$', c):
             return R(Enum('Err', {0: UNIT}))
+        if re.search(r'<impl \[u8\]>::chunks_exact$', c):
+            sl, size = args
+            ln = sl.end - sl.start
+            q = s.div(st, ln, size)
+            return R({'kind': 'chunks', 'arr': sl.arr, 'pos': sl.start, 'end': sl.start + q * size, 'size': size, 'rem_end': sl.end})
+        if re.match(r'ChunksExact::<.*>::remainder$', c):
+            it = args[0]
+            while isinstance(it, Ref):
+                it = st.get(it.cell, it.path)
+            return R(Slice(it['arr'], it['end'], it['rem_end']))
         if re.search(r'<impl \[u8\]>::chunks$', c):
             sl, size = args
             return R({'kind': 'chunks', 'arr': sl.arr, 'pos': sl.start, 'end': sl.end, 'size': size})
